@@ -87,25 +87,4 @@ pub assume_specification [<isize as TryFrom<usize>>::try_from] (x: usize) -> (r:
 #[verifier::external_body]
 pub struct DynError { _p: u8 }
 
-// R5: the text of the "stuck" message is not part of C02.
-#[verifier::external_body]
-pub fn stuck_message<'a>(term: &Term<'a>) -> String { unimplemented!() }
-
-
 pub assume_specification<T> [std::cell::RefCell::<T>::new] (_0: T) -> std::cell::RefCell<T>;
-
-// ---- TRUSTED model of hole cells (`Unifier(Rc<RefCell<Option<Term>>>, shift)`) -----------------------
-// A hole is either unresolved or stands for the term stored in its cell.  While the functions under
-// contract run, no cell is written (there is no `borrow_mut` in them; evaluation starts after type
-// checking has finished), so "the content of a cell" is a function of the cell: `hole_resolved`,
-// `hole_view` (the abstract view of the content).  Rule R9 replaces the read `{ c.borrow().clone() }` by
-// `hole_content(c)`, whose assumed contract ties the value read to these two functions.
-pub uninterp spec fn hole_resolved<'a>(c: Rc<RefCell<Option<Term<'a>>>>) -> bool;
-pub uninterp spec fn hole_view<'a>(c: Rc<RefCell<Option<Term<'a>>>>) -> STerm;
-
-#[verifier::external_body]
-pub fn hole_content<'a>(c: &Rc<RefCell<Option<Term<'a>>>>) -> (r: Option<Term<'a>>)
-    ensures
-        r is Some <==> hole_resolved(*c),
-        r is Some ==> view(r->Some_0) == hole_view(*c),
-{ unimplemented!() }
